@@ -267,7 +267,9 @@ func (r *SexpArray) Type() *RegisteredType {
 		if len(r.Val) > 0 {
 			// take type from first element
 			ty := r.Val[0].Type()
-			if ty != nil {
+			if ty != nil && ty.TypeCache != nil {
+				// (types without a Go representation, such as plain
+				// hashes, have no slice type: the array stays untyped)
 				r.Typ = GoStructRegistry.GetOrCreateSliceType(ty)
 			}
 		} else {
